@@ -16,6 +16,9 @@ REQUIRED_BRANCHES = [
     # value stored before one it keeps, on such a request
     "filtered-source", "filtered-source-nested-reader-same-field", "filter-drops-an-earlier-value-with-nested-reader",
     "src:filtered-with-nested-reader-of-same-field", "src:filtered:terms", "src:filtered:ranges", "src:filtered:dranges",
+    # keywords whose byte shape is that of a prefix-coded numeric term with shift > 0 ("Alaska", "Oslo", "20240101", …)
+    "keyword-shaped-like-shifted-numeric-term:card", "keyword-shaped-like-shifted-numeric-term:terms",
+    "keyword-shaped-like-shifted-numeric-term:nested-card",
     "nested-quantiles", "nested-cardinality", "nested-sketch-several-buckets", "nested:quant", "nested:card", "def:reused",
 ]
 ASSUMPTIONS = [
